@@ -1054,3 +1054,127 @@ Proof.
   - intros _. split; [intros ty; reflexivity | exact Hat].
   - intros slot. reflexivity.
 Qed.
+
+Definition exhausted (sr : res) (mr : mres) : Prop := sr = RBad /\ mr = MFail.
+
+Lemma hset_lib : forall h l slot id, h_lib (hset h l slot id) = l. Proof. reflexivity. Qed.
+
+Lemma sim_unbind : forall h a slot, Sim h a ->
+  Sim (hset h (h_lib h) slot FAILV) (mkstate (anns a) (slot_clear slot (slots a)) (sess a)).
+Proof.
+  intros h a slot HS. constructor; simpl; try apply HS. apply srel_unbind. apply (sim_slots _ _ HS).
+Qed.
+
+Lemma sim_create_core : forall h a slot ty g r g' r' l1 id a' sr, Sim h a -> h_sess h = true -> u16 g -> u16 r ->
+  (is_data ty = true -> g' = g /\ r' = r) ->
+  ANIcreate (h_lib h) g r ty = (l1, id) ->
+  create a slot ty g' r' (ref_of (ptagref l1 id)) = (a', sr) ->
+  exhausted sr (ptagref l1 id) \/ (Sim (hset h l1 slot id) a' /\ accepts sr (ptagref l1 id)).
+Proof.
+  intros h a slot ty g r g' r' l1 id a' sr HS Hsess Hg Hr Hgr HM HSp.
+  destruct (ANIcreate_sim _ _ _ _ _ _ (sim_good _ _ HS) Hg Hr HM) as [HG1 [Hd [Hids [Htrees Hcase]]]].
+  unfold create in HSp. rewrite (sim_sess _ _ HS), Hsess in HSp. simpl in HSp.
+  assert (Hbase : forall id0, Sim (hset h l1 slot id0) (mkstate (anns a) (slot_clear slot (slots a)) (sess a)) \/ True) by (intros; right; exact I).
+  destruct Hcase as [[Hid [HR Hwhy]]|[Hid [Hty [Hnz [ref [Rr [Hidr [Hfresh HR]]]]]]]].
+  - (* M failed *)
+    subst id. unfold ptagref in *. simpl in *.
+    assert (HSim : Sim (hset h l1 slot FAILV) (mkstate (anns a) (slot_clear slot (slots a)) true)).
+    { constructor; simpl; [assumption | apply (sim_nodup _ _ HS) | intros x; rewrite HR; apply (sim_repr _ _ HS) | symmetry; exact Hsess | rewrite Hsess; discriminate |].
+      apply srel_unbind. apply (srel_keep (h_lib h)); [apply (sim_slots _ _ HS) | assumption]. }
+    destruct (valid_type ty) eqn:Ev; simpl in HSp; [|inversion HSp; subst; right; split; [assumption | exact I]].
+    destruct (is_data ty && ((g' =? 0) || (r' =? 0))) eqn:Ez; [inversion HSp; subst; right; split; [assumption | exact I]|].
+    apply valid_type_iff in Ev. destruct Hwhy as [N|[[Hd0 Hz]|[_ _]]]; [contradiction | |].
+    + exfalso. destruct (Hgr Hd0) as [-> ->]. rewrite Hd0 in Ez. simpl in Ez. apply orb_false_iff in Ez. destruct Ez as [E1 E2].
+      apply Z.eqb_neq in E1. apply Z.eqb_neq in E2. destruct Hz; contradiction.
+    + unfold fresh in HSp. simpl in HSp. inversion HSp; subst. left. split; reflexivity.
+  - (* M created annotation (ty, ref) *)
+    unfold ptagref in *. destruct (id =? FAILV) eqn:Ef; [apply Z.eqb_eq in Ef; contradiction|]. rewrite Hidr in *. simpl in HSp.
+    rewrite (proj2 (valid_type_iff ty) Hty) in HSp. simpl in HSp.
+    assert (Ez : is_data ty && ((g' =? 0) || (r' =? 0)) = false).
+    { destruct (is_data ty) eqn:Ed; [|reflexivity]. destruct (Hgr eq_refl) as [-> ->]. destruct (Hnz eq_refl) as [N1 N2]. simpl.
+      apply orb_false_iff. split; apply Z.eqb_neq; assumption. }
+    rewrite Ez in HSp.
+    assert (Hfr : fresh ty ref (anns a) = true).
+    { unfold fresh. destruct Rr as [R1 R2]. rewrite (proj2 (Z.leb_le _ _) R1), (proj2 (Z.leb_le _ _) R2). simpl.
+      destruct (lookup (ty, ref) (anns a)) as [x|] eqn:El; [|reflexivity]. exfalso. apply lookup_In in El. destruct El as [X1 X2].
+      apply (Hfresh x X2). apply (sim_repr _ _ HS). assumption. }
+    rewrite Hfr in HSp. simpl in HSp.
+    assert (Hnew : (if is_data ty then mkann (ty, ref) g' r' None else mkann (ty, ref) (tag_of_type ty) ref None) = new_ann ty ref g r).
+    { unfold new_ann. destruct (is_data ty) eqn:Ed; [destruct (Hgr eq_refl) as [-> ->]|]; reflexivity. }
+    rewrite Hnew in HSp. inversion HSp; subst a' sr; clear HSp. right. split; [|simpl; split; [left; reflexivity | constructor]].
+    unfold add_ann. constructor; simpl.
+    + assumption.
+    + unfold keys. rewrite map_app. simpl. apply NoDup_app_one; [apply (sim_nodup _ _ HS)|]. unfold new_ann. simpl.
+      apply lookup_None. unfold fresh in Hfr. destruct (lookup (ty, ref) (anns a)); [|reflexivity].
+      rewrite andb_false_r in Hfr. discriminate.
+    + intros x. rewrite in_app_iff. simpl. rewrite HR. rewrite (sim_repr _ _ HS). split; [intros [X|[X|[]]]; auto | intros [X|X]; auto].
+    + apply (sim_sess _ _ HS).
+    + rewrite Hsess. discriminate.
+    + apply srel_bind; [apply (srel_keep (h_lib h)); [apply (sim_slots _ _ HS) | assumption] | assumption | assumption].
+Qed.
+
+Lemma sim_create : forall h a slot ty g r x0 h' mr a' sr, Sim h a -> u16 g -> u16 r ->
+  mstep h (OCreate slot ty g r x0) = (h', mr) -> step a (OCreate slot ty g r (ref_of mr)) = (a', sr) ->
+  sr = RUnspec \/ exhausted sr mr \/ (Sim h' a' /\ accepts sr mr).
+Proof.
+  intros h a slot ty g r x0 h' mr a' sr HS Hg Hr HM HSp. unfold mstep in HM. cbv beta iota zeta in HM. simpl in HSp.
+  destruct (h_sess h) eqn:Eh; simpl in HM.
+  - destruct (ANIcreate (h_lib h) g r ty) as [l1 id] eqn:Ec. inversion HM; subst h' mr. right.
+    apply (sim_create_core h a slot ty g r g r l1 id a' sr HS Eh Hg Hr (fun _ => conj eq_refl eq_refl) Ec HSp).
+  - inversion HM; subst h' mr. unfold create in HSp. rewrite (sim_sess _ _ HS), Eh in HSp. simpl in HSp. inversion HSp; subst a' sr.
+    right. right. split; [|exact I]. pose proof (sim_unbind h a slot HS) as X. rewrite (sim_sess _ _ HS), Eh in X. exact X.
+Qed.
+
+Lemma sim_createf : forall h a slot ty x0 h' mr a' sr, Sim h a ->
+  mstep h (OCreatef slot ty x0) = (h', mr) -> step a (OCreatef slot ty (ref_of mr)) = (a', sr) ->
+  sr = RUnspec \/ exhausted sr mr \/ (Sim h' a' /\ accepts sr mr).
+Proof.
+  intros h a slot ty x0 h' mr a' sr HS HM HSp. unfold mstep in HM. cbv beta iota zeta in HM. simpl in HSp.
+  destruct (h_sess h) eqn:Eh; simpl in HM.
+  - destruct (ANcreatef (h_lib h) ty) as [l1 id] eqn:Ec. inversion HM; subst h' mr. right. unfold ANcreatef in Ec.
+    assert (Hcases : (ty = 2 \/ ty = 3) \/ (ty <> 2 /\ ty <> 3)) by lia. destruct Hcases as [Hc|[N2 N3]].
+    + assert (Ed : is_data ty = false) by (destruct Hc; subst; reflexivity). rewrite Ed in HSp.
+      assert (Esw : zassoc ty ANcreatef_ann_tag_switch = Some (tag_of_type ty)) by (destruct Hc; subst; reflexivity). rewrite Esw in Ec.
+      assert (Hty : tyok ty) by (unfold tyok; destruct Hc; subst; lia).
+      apply (sim_create_core h a slot ty (tag_of_type ty) 0 0 0 l1 id a' sr HS Eh (tag_of_type_range ty Hty) ltac:(unfold u16; lia)); auto.
+      intros X. rewrite X in Ed. discriminate.
+    + assert (Esw : zassoc ty ANcreatef_ann_tag_switch = None).
+      { unfold ANcreatef_ann_tag_switch. simpl. rewrite (proj2 (Z.eqb_neq _ _) N2), (proj2 (Z.eqb_neq _ _) N3). reflexivity. }
+      rewrite Esw in Ec. inversion Ec; subst l1 id. unfold ptagref in *. simpl in *. right.
+      assert (HSim : Sim (hset h (h_lib h) slot FAILV) (mkstate (anns a) (slot_clear slot (slots a)) (sess a))) by (apply sim_unbind; assumption).
+      destruct (is_data ty) eqn:Ed; [inversion HSp; subst; split; [assumption | exact I]|].
+      unfold create in HSp. rewrite (sim_sess _ _ HS), Eh in HSp. simpl in HSp.
+      assert (Ev : valid_type ty = false).
+      { destruct (valid_type ty) eqn:Ev; [|reflexivity]. apply valid_type_iff in Ev. unfold tyok in Ev.
+        assert (ty = 0 \/ ty = 1) as [-> | ->] by lia; discriminate. }
+      rewrite Ev in HSp. simpl in HSp. inversion HSp; subst. split; [|exact I]. rewrite (sim_sess _ _ HS), Eh in HSim. exact HSim.
+  - inversion HM; subst h' mr. right. right. split; [|destruct (is_data ty); [inversion HSp; subst; exact I|]].
+    + pose proof (sim_unbind h a slot HS) as X. destruct (is_data ty); [inversion HSp; subst; exact X|].
+      unfold create in HSp. rewrite (sim_sess _ _ HS), Eh in HSp. simpl in HSp. inversion HSp; subst. rewrite (sim_sess _ _ HS), Eh in X. exact X.
+    + unfold create in HSp. rewrite (sim_sess _ _ HS), Eh in HSp. simpl in HSp. inversion HSp; subst. exact I.
+Qed.
+
+Lemma sim_write : forall h a slot txt h' mr a' sr, Sim h a ->
+  mstep h (OWrite slot txt) = (h', mr) -> step a (OWrite slot txt) = (a', sr) -> sr = RUnspec \/ (Sim h' a' /\ accepts sr mr).
+Proof.
+  intros h a slot txt h' mr a' sr HS HM HSp. unfold mstep in HM. cbv beta iota zeta in HM. simpl in HSp. unfold with_slot in HSp.
+  pose proof (sim_good _ _ HS) as HG. pose proof HG as [HI HT].
+  destruct (ANIwriteann (h_lib h) (hslot h slot) txt) as [l1 ok] eqn:Ew. inversion HM; subst h' mr; clear HM.
+  destruct (slot_cases h a slot HS) as [[E1 [E2 _]]|[ty [ref [x [E1 [T [B [L [Rx Kx]]]]]]]]]; rewrite E1 in HSp.
+  - unfold ANIwriteann in Ew. rewrite E2 in Ew. inversion Ew; inversion HSp; subst. right. split; [|exact I].
+    destruct h; exact HS.
+  - rewrite L in HSp. rewrite Kx in HSp. cbn [fst] in HSp.
+    destruct ((zlen txt =? 0) || (is_label ty && has_nul txt)) eqn:Ed; [inversion HSp; left; reflexivity|].
+    apply orb_false_iff in Ed. destruct Ed as [Ed _]. apply Z.eqb_neq in Ed.
+    destruct (ANIwriteann_sim _ _ _ _ _ _ _ HG T B Ed Ew) as [Hok [HG1 [Hids [Htr [_ HR]]]]]. subst ok.
+    inversion HSp; subst a' sr. right. split; [|simpl; split; [left; reflexivity | constructor]].
+    constructor; simpl.
+    + assumption.
+    + unfold keys. rewrite set_text_keys. apply (sim_nodup _ _ HS).
+    + intros y. rewrite (set_text_In _ _ _ _ (sim_nodup _ _ HS)). rewrite HR. split.
+      * intros [[z [Z1 [Z2 Z3]]]|[Z1 Z2]]; [left; exists z; split; [apply (sim_repr _ _ HS); assumption | auto] | right; split; [apply (sim_repr _ _ HS); assumption | assumption]].
+      * intros [[z [Z1 [Z2 Z3]]]|[Z1 Z2]]; [left; exists z; split; [apply (sim_repr _ _ HS); assumption | auto] | right; split; [apply (sim_repr _ _ HS); assumption | assumption]].
+    + apply (sim_sess _ _ HS).
+    + intros Hc. destruct (sim_closed _ _ HS Hc) as [C1 C2]. unfold ANid2tagref in B. rewrite C2 in B. discriminate.
+    + apply (srel_keep (h_lib h)); [apply (sim_slots _ _ HS)|]. intros id tr X. rewrite Hids. assumption.
+Qed.
